@@ -231,6 +231,27 @@ func init() {
 		}
 		return okStr(hx(b) + " | " + fmtFrame(&q)), nil
 	}
+	// jart <join-accept frame>: JoinAcceptPayload.MarshalBinary, then UnmarshalBinary into a fresh value (the payload as the
+	// device sees it after decryption)
+	opTable["jart"] = func(r *tokReader) (string, error) {
+		p, err := parseFrame(r)
+		if err != nil {
+			return "", err
+		}
+		ja, ok := p.MACPayload.(*lw.JoinAcceptPayload)
+		if !ok {
+			return "", fmt.Errorf("join-accept frame expected")
+		}
+		b, e := ja.MarshalBinary()
+		if e != nil {
+			return resERR, nil
+		}
+		var q lw.JoinAcceptPayload
+		if e := q.UnmarshalBinary(false, b); e != nil {
+			return okStr(hx(b) + " | " + resERR), nil
+		}
+		return okStr(hx(b) + " | " + fmtFrame(&lw.PHYPayload{MHDR: p.MHDR, MACPayload: &q, MIC: p.MIC})), nil
+	}
 	opTable["phytextenc"] = func(r *tokReader) (string, error) {
 		p, err := parseFrame(r)
 		if err != nil {
